@@ -483,3 +483,116 @@ def unconstrained_harness(famname, K, inverse, props, N=2):
 
     return Harness(f"unconstrained_{famname}[K={K},inverse={inverse},N={N}]", run, post, native_call=native_call, native_clauses=native_clauses,
                    sample=sample, functions=[ufunc], config={"family": famname, "K": K, "inverse": inverse, "N": N})
+
+
+# ---------------------------------------------------------------------------------------------------------
+# Piecewise*CDF transform classes (nonlinearities.py): real class + real unconstrained wrapper, constrained function stubbed
+# ---------------------------------------------------------------------------------------------------------
+def cdf_harness(famname, tails, tail_bound, xshape, inverse, props, K=2):
+    from tsv.instrument import patched
+    from nflows.transforms import nonlinearities as NL
+    from .modules import exp_of_term, zabs
+    fam = FAMILIES[famname]
+    cls = {"linear": NL.PiecewiseLinearCDF, "quadratic": NL.PiecewiseQuadraticCDF, "cubic": NL.PiecewiseCubicCDF, "rq": NL.PiecewiseRationalQuadraticCDF}[famname]
+    fshape = list(xshape[1:])
+
+    def make():
+        return cls(shape=fshape, num_bins=K, tails=tails, tail_bound=tail_bound)
+
+    def run(h, ctx):
+        m = make()          # under the symbolic mode: torch.randn parameters are fresh symbols
+        m.eval()
+        h.module = m
+        x = h.inp("x", xshape)
+        if tails is None:
+            for t in P(x).reshape(-1):
+                ctx.assume(z3.And(t >= 0, t <= 1))
+        stub = SplineStub(fam)
+        h.stub = stub
+        with patched(fam.func, stub):
+            return m.inverse(x) if inverse else m.forward(x)
+
+    def post(h, ctx, value):
+        o, ld = value
+        px, po, pl = P(h.inputs["x"]), P(o), P(ld)
+        B = px.shape[0]
+        Bd = rv(tail_bound)
+        ensure(h, ctx, "C01.shapes", z3.BoolVal(tuple(po.shape) == tuple(px.shape) and tuple(pl.shape) == (B,)))
+        for idx in np.ndindex(*px.shape):
+            x, oe = px[idx], po[idx]
+            if tails is not None and "C09" in props:
+                inside = z3.And(x >= -Bd, x <= Bd)
+                ensure(h, ctx, "C09.tails-identity", z3.Implies(z3.Not(inside), oe == x))
+                ensure(h, ctx, "C09.inside-stays-inside", z3.Implies(inside, z3.And(oe >= -Bd, oe <= Bd)))
+                ensure(h, ctx, "C09.continuous-at-bound", z3.And(z3.Implies(x == Bd, oe == Bd), z3.Implies(x == -Bd, oe == -Bd)))
+        if "C01" in props and not inverse:
+            for b in range(B):
+                prod = rv(1)
+                for idx in np.ndindex(*px.shape[1:]):
+                    prod = T.mul(prod, diff(po[(b,) + idx], px[(b,) + idx]))
+                numr, den = exp_of_term(pl[b])
+                ensure(h, ctx, "C01.logdet", z3.And(zabs(prod) * den == numr, prod != 0))
+        if "C12" in props or "C01" in props:
+            # every element was evaluated with the parameters of its own feature position (shared across the batch)
+            pnames = [n for n, _ in h.module.named_parameters()]
+            ok = True
+            for idx, x, params, box in h.stub.calls:
+                e = next((i for i in np.ndindex(*px.shape) if z3.eq(x, toreal(px[i]))), None)
+                if e is None:
+                    ok = False; continue
+                for n, got in zip(pnames, params):
+                    want = list(P(getattr(h.module, n))[e[1:]])
+                    if famname == "rq" and n == "unnormalized_derivatives" and tails == "linear":
+                        got = got[1:-1]
+                    ok = ok and len(got) == len(want) and all(z3.eq(a, b_) for a, b_ in zip(got, want))
+            ensure(h, ctx, "C12.own-feature-parameters", z3.BoolVal(bool(ok)))
+
+    def nat_module(inp):
+        torch.manual_seed(int(abs(float(np.asarray(inp["x"]).sum())) * 1000) % 100000)
+        return native_cast(make()).eval()
+
+    def native_call(h, inp):
+        m = nat_module(inp)
+        return m.inverse(tt(inp["x"])) if inverse else m.forward(tt(inp["x"]))
+
+    def native_clauses(h, inp, res):
+        o, ld = res
+        x = tt(inp["x"]); m = nat_module(inp)
+        f = m.inverse if inverse else m.forward
+        c = {}
+        if tails is not None:
+            inside = (x >= -tail_bound) & (x <= tail_bound)
+            c["C09.tails-identity"] = bool(torch.equal(o[~inside], x[~inside]))
+            c["C09.inside-stays-inside"] = bool(((o[inside] >= -tail_bound - 1e-9) & (o[inside] <= tail_bound + 1e-9)).all())
+            c["C09.continuous-at-bound"] = bool(torch.allclose(o[x.abs() == tail_bound], x[x.abs() == tail_bound], atol=1e-7))
+        J = torch.autograd.functional.jacobian(lambda z: f(z)[0], x)
+        n = x[0].numel()
+        off = bool((x.abs() != tail_bound).all()) if tails is not None else True
+        if not inverse and off:
+            c["C01.logdet"] = all(abs(float(torch.slogdet(J.reshape(x.shape[0], n, x.shape[0], n)[b, :, b, :])[1]) - float(ld[b])) < 1e-6 for b in range(x.shape[0]))
+        rows = [f(x[i:i + 1]) for i in range(x.shape[0])]
+        c["C12.own-feature-parameters"] = bool(torch.allclose(torch.cat([r[0] for r in rows]), o, atol=1e-12))
+        return c
+
+    def sample(h, rng):
+        if tails is None:
+            return {"x": rng.uniform(0.02, 0.98, size=xshape)}
+        x = rng.uniform(-2.2 * tail_bound, 2.2 * tail_bound, size=xshape)
+        if rng.uniform() < 0.3: x.reshape(-1)[0] = tail_bound
+        if rng.uniform() < 0.3: x.reshape(-1)[-1] = -tail_bound
+        return {"x": x}
+
+    hid = f"{cls.__name__}[tails={tails},bound={tail_bound},x={'x'.join(map(str, xshape))},inverse={inverse}]"
+    return Harness(hid, run, post, native_call=native_call, native_clauses=native_clauses, sample=sample, functions=[cls._spline, cls.__init__],
+                   config={"family": famname, "tails": tails, "tail_bound": tail_bound, "xshape": list(xshape), "inverse": inverse})
+
+
+def cdf_harnesses(props, tier, directions=(False, True)):
+    hs = []
+    for fam in FAMILIES:
+        for inv in directions:
+            hs.append(cdf_harness(fam, None, 1.0, (2, 2), inv, props))
+            for bound in ((0.5, 3.0) if tier == "quick" else (0.25, 0.5, 1.0, 3.0, 50.0)):
+                hs.append(cdf_harness(fam, "linear", bound, (2, 1), inv, props))
+            hs.append(cdf_harness(fam, "linear", 2.0, (1, 2, 1), inv, props))
+    return hs
